@@ -120,6 +120,14 @@ class P:
             return ("Some", v)
         if tok[1] == "None":
             return ("None",)
+        if tok[1] == "_":
+            return ("wild",)
+        if tok[1].split("::")[-1] in CLASSES:
+            alts = [tok[1]]
+            while self.at("|"):
+                self.eat()
+                alts.append(self.eat("id")[1])
+            return ("classes", alts)
         die("%s: unsupported pattern %r" % (self.fn, tok))
 
     LEVELS = [["||"], ["&&"], ["==", "!=", "<=", ">=", "<", ">"], ["|"], ["&"], ["+", "-"], ["%"]]
@@ -319,8 +327,19 @@ def class_arms(src, fn_name, fn_sig, scrut_re):
     body = find_fn(src, fn_name, fn_sig)
     m = re.search(r"match\s+%s\s*\{" % scrut_re, body)
     if not m:
-        die("%s: `match %s` not found" % (fn_name, scrut_re))
-    i = m.end()
+        # the scrutinee may have been hoisted into a local or renamed: take the first `match` of the function
+        # whose arms are class patterns (at least two arms that list classes)
+        for cand in re.finditer(r"match\s+[^{;]+?\{", body):
+            try:
+                arms = class_arms_at(body, cand.end(), fn_name, soft=True)
+            except ValueError:
+                continue
+            if sum(1 for a in arms if a) >= 2:
+                return arms
+        die("%s: no `match` over classes found" % fn_name)
+    return class_arms_at(body, m.end(), fn_name)
+
+def class_arms_at(body, i, fn_name, soft=False):
     depth, j, arms, cur = 1, i, [], ""
     # collect text at depth 1 up to each `=>`
     pats = []
@@ -371,6 +390,8 @@ def class_arms(src, fn_name, fn_sig, scrut_re):
         elif p == "_":
             out.append([])
         else:
+            if soft:
+                raise ValueError(p)
             die("%s: arm pattern %r is not a list of classes" % (fn_name, p))
     return out
 
@@ -427,7 +448,21 @@ def main():
                 return emit_pred(e[2])
             if e[0] == "matches" and e[1] == ("id", param):
                 return "(match %s with %s => true | _ => false)" % (param, " ".join("| " + cls(a) for a in e[2]))
-            die("%s: body is not a single matches!" % rust)
+            if e[0] == "match" and e[1] == ("id", param):
+                # `match class { A | B => true, _ => false }` (any number of arms, each yielding a bool literal)
+                arms = []
+                for pat, body in e[2]:
+                    val = body[2] if body[0] == "block" else body
+                    if val not in (("id", "true"), ("id", "false")):
+                        die("%s: arm does not yield a bool literal" % rust)
+                    if pat[0] == "classes":
+                        arms.append("%s => %s" % (" ".join("| " + cls(a) for a in pat[1]), val[1]))
+                    elif pat[0] == "wild":
+                        arms.append("| _ => %s" % val[1])
+                    else:
+                        die("%s: unsupported arm pattern" % rust)
+                return "(match %s with %s)" % (param, " ".join(arms))
+            die("%s: body is neither a single matches! nor a match over classes" % rust)
         lines.append("/-- `%s` (%s) -/" % (rust, path))
         lines.append("def %s (c : UBidi.BidiClass) : Bool :=\n  %s" % (lean, emit_pred(ast).replace("(match %s with" % param, "(match c with")))
         lines.append("")
